@@ -149,9 +149,20 @@ Section Biases.
   Definition add_criterion (cs : list crit) (c : crit) : res (list crit) :=
     if mem_str (c_id c) (map c_id cs) then Err ECollision else Ok (cs ++ [c]).
   (* Criteria.NotUsedName *)
+  (* first guess: the number of ids sharing the prefix; then count on while the candidate is taken.
+     The loop of the code ends by a pigeonhole argument; [S (length cs)] steps of fuel are enough
+     (theorem [not_used_name_fresh] in Proofs/AdditionFacts.v). *)
+  Definition name_candidate (name : string) (n : nat) : string :=
+    if Nat.eqb n 0 then name else name ++ nat_to_string n.
+  Fixpoint first_free_name (fuel : nat) (ids : list string) (name : string) (n : nat) : string :=
+    match fuel with
+    | O => name_candidate name n
+    | S f => if mem_str (name_candidate name n) ids then first_free_name f ids name (S n)
+             else name_candidate name n
+    end.
   Definition not_used_name (cs : list crit) (name : string) : string :=
     let n := List.length (filter (fun c => has_prefix name (c_id c)) cs) in
-    if Nat.eqb n 0 then name else name ++ nat_to_string n.
+    first_free_name (S (List.length cs)) (map c_id cs) name n.
 
   (** ** reports *)
   Record component := { cp_id : string; cp_type : ctype; cp_values : smap num }.
@@ -325,7 +336,7 @@ Section Biases.
                                          Ok (mset (fst kv) (nadd (nmul (snd kv) (bp_mix_ratio p))
                                                                  (nmul y (nsub none (bp_mix_ratio p)))) m))
                           v1 (Ok []);
-    let newc := {| c_id := "__" ++ c_id c1 ++ "+" ++ c_id c2 ++ "__"; c_type := TGain; c_range := Some target |} in
+    let newc := {| c_id := not_used_name (st_crits cur) ("__" ++ c_id c1 ++ "+" ++ c_id c2 ++ "__"); c_type := TGain; c_range := Some target |} in
     do ag <- on_criterion_added newc ref (st_params cur) (snd d2);
     do params <- merge (st_params cur) (fst ag);
     do new_all <- mapM (fun a => do v <- of_option (mget (a_id a) mixed) EMissing; with_value a (c_id newc) v) all;
